@@ -83,6 +83,7 @@ static uint64_t run_call(const KV &c) {
         d.add("ct", ct);
         Bytes pt;
         d.addi("rc", lib::inc_decrypt_alg(alg, key, nonce, ad, ct, chunks, r & 2, pt)); d.add("pt", pt);
+        { Bytes bad = ct, p2; bad[bad.size() - 1 - r % 16] ^= 1; d.addi("rc-forged", lib::inc_decrypt_alg(alg, key, nonce, ad, bad, chunks, r & 2, p2)); }   // rejected tag in decrypt_finalize
         // second packet + reinit on one session
         ascon128_state_t s;
         ascon128_aead_init(&s, nb.p, kb.p);
@@ -107,6 +108,7 @@ static uint64_t run_call(const KV &c) {
         d.add("ct", ct); d.add("clen", clen);
         lib::DecResult dr = lib::masked_decrypt(alg, key, nonce, ad, ct);
         d.addi("rc", dr.rc); d.add("pt", dr.out);
+        { Bytes bad = ct; bad[r % bad.size()] ^= 4; dr = lib::masked_decrypt(alg, key, nonce, ad, bad); d.addi("rc-forged", dr.rc); d.add("pt-forged", dr.out); }   // the reject path, then more calls
         ascon_masked_key_128_t k1; ascon_masked_key_160_t k2;
         Buf k20(key20), o1(16), o2(20);
         ascon_masked_key_128_init(&k1, k20.p); ascon_masked_key_128_randomize(&k1); ascon_masked_key_128_extract(&k1, o1.p); ascon_masked_key_128_free(&k1);
@@ -119,6 +121,10 @@ static uint64_t run_call(const KV &c) {
         d.add("ct", ct); d.add("clen", clen);
         lib::DecResult dr = lib::dec_generic(lib::SIV_DEC[alg], key, nonce, ad, ct);
         d.addi("rc", dr.rc); d.add("pt", dr.out);
+        ct[r % ct.size()] ^= 2;
+        dr = lib::dec_generic(lib::SIV_DEC[alg], key, nonce, ad, ct);       // the reject path, then one more call
+        d.addi("rc-forged", dr.rc); d.add("pt-forged", dr.out);
+        d.add("again", lib::enc_generic(lib::SIV_ENC[alg], key, nonce, ad, data, &clen));
         break; }
     case G_ISAP: {
         Bytes ik(key20.begin(), key20.begin() + lib::ISAP_KEYLEN[alg]);
@@ -127,6 +133,9 @@ static uint64_t run_call(const KV &c) {
         Bytes saved = k.save(); d.add("saved", saved);
         lib::IsapKey k2(alg); k2.load(saved);
         lib::DecResult dr = k2.decrypt(nonce, ad, ct); d.addi("rc", dr.rc); d.add("pt", dr.out);
+        { Bytes bad = ct; bad[r % bad.size()] ^= 8; dr = k2.decrypt(nonce, ad, bad); d.addi("rc-forged", dr.rc); d.add("pt-forged", dr.out); }   // the reject path, then more calls on the same key
+        { Bytes tiny(7, 1); dr = k2.decrypt(nonce, ad, tiny); d.addi("rc-short", dr.rc); }
+        d.add("again", k2.encrypt(nonce, ad, data)); d.add("saved-again", k2.save());
         k.free_(); k2.free_();
         break; }
     case G_HASH: {
